@@ -6422,9 +6422,10 @@ bool SoPlexBase<R>::setIntParam(const IntParam param, const int value, const boo
 
    // maximum number of conjugate gradient iterations in least square scaling
    case SoPlexBase<R>::LEASTSQ_MAXROUNDS:
-      if(_scaler)
-         _scaler->setIntParam(value);
-
+      _scalerLeastsq.setIntParam(value, "leastsq_maxrounds");
+#ifdef SOPLEX_WITH_MPFR
+      _boostedScalerLeastsq.setIntParam(value, "leastsq_maxrounds");
+#endif
       break;
 
    // mode of solution polishing
@@ -6633,9 +6634,10 @@ bool SoPlexBase<R>::setRealParam(const RealParam param, const Real value, const 
 
    // accuracy of conjugate gradient method in least squares scaling (higher value leads to more iterations)
    case SoPlexBase<R>::LEASTSQ_ACRCY:
-      if(_scaler)
-         _scaler->setRealParam(value);
-
+      _scalerLeastsq.setRealParam(value, "leastsq_acrcy");
+#ifdef SOPLEX_WITH_MPFR
+      _boostedScalerLeastsq.setRealParam(value, "leastsq_acrcy");
+#endif
       break;
 
    // objective offset
